@@ -219,19 +219,29 @@ class World:
                 out.append((p.arg, [Unk(f"arg.{p.arg}", "bound")]))
             else:
                 out.append((p.arg, [Unk(f"arg.{p.arg}")]))
+        if a.vararg is not None:
+            out.append(("*", [(), (Unk(f"arg.{a.vararg.arg}0"),)]))
         return out
 
     def call_entry(self, I, f, argmap: dict, *, open_kwargs=True, varargs=()):
         """Call method `f` of the root object with the given argument values."""
         kwargs = dict(argmap)
+        if "*" in kwargs:
+            varargs = tuple(varargs) + tuple(kwargs.pop("*"))
         if f.node.args.kwarg is not None and open_kwargs:
             kwargs["**"] = ADict(open=True, bases=("kw",), label="kw")
         fr = Frame(None, f.module, {}, qualname="<entry>")
         I.frames = [fr]
         node = ast.parse("0").body[0]
         node.lineno = 0
+        pos = []
+        if varargs:
+            params = [p.arg for p in list(f.node.args.posonlyargs) + list(f.node.args.args)][1:]
+            for pn in params:
+                if pn in kwargs:
+                    pos.append(kwargs.pop(pn))
         try:
-            return I.call_function(f, [self.root] + list(varargs), kwargs, node, dyncls=self.cls)
+            return I.call_function(f, [self.root] + pos + list(varargs), kwargs, node, dyncls=self.cls)
         finally:
             I.frames = []
 
